@@ -670,6 +670,11 @@ def rebuild(op, args):
     if op == "sqrt":
         return sqrt(args[0])
     if op == "pow":
+        if isinstance(args[1], Poly):
+            c = args[1].const_value()
+            if c is None:
+                return app("pow", args[0], args[1])
+            return powq(args[0], c)
         return powq(args[0], args[1])
     if op == "group":
         return args[0]
